@@ -344,7 +344,7 @@ def vjoin(a, b, cd, widen=False):
 
 
 class State:
-    __slots__ = ("frames", "pc", "refined", "corr", "dead")
+    __slots__ = ("frames", "pc", "refined", "corr", "dead", "afacts")
 
     def __init__(self):
         self.frames = []  # list of dict local -> V
@@ -352,6 +352,9 @@ class State:
         self.refined = {}  # atom -> frozenset(vids)
         self.corr = frozenset()
         self.dead = False
+        # facts about linear forms of the (immutable) input atoms established by branch conditions on this path:
+        # key of the exact affine form -> (lo, hi) of its mathematical value
+        self.afacts = {}
 
     def copy(self):
         s = State()
@@ -359,6 +362,7 @@ class State:
         s.pc = [dict(p) for p in self.pc]
         s.refined = dict(self.refined)
         s.corr = self.corr
+        s.afacts = dict(self.afacts)
         return s
 
 
@@ -723,6 +727,11 @@ class Interp:
                     aff = a.aff.scale(b.lo)
                 elif b.aff is not None and a.is_const():
                     aff = b.aff.scale(a.lo)
+            if aff is not None and st is not None and st.afacts:
+                fact = st.afacts.get(aff.key())
+                if fact is not None and max(lo, fact[0]) <= min(hi, fact[1]):
+                    # a branch on this path bounded the same linear form of the inputs (e.g. `a + b > MAX => return`)
+                    lo, hi = max(lo, fact[0]), min(hi, fact[1])
             ovf_possible = lo < tlo or hi > thi
             ovf_certain = hi < tlo or lo > thi
             if a.is_const() and b.is_const():
@@ -1073,7 +1082,44 @@ class Interp:
         nv = IntV(v.ty, v.bits, lo2, hi2, v.aff, v.exact and exact_ok, v.lineage, v.pred, vid=v.vid, full=v.full and exact_ok, excl=v.excl)
         self.mark_refined(st, v)
         self.replace_vid(st, v, nv)
+        if v.aff is not None and not v.aff.is_const():
+            k = v.aff.key()
+            old = st.afacts.get(k)
+            st.afacts[k] = (max(lo2, old[0]), min(hi2, old[1])) if old else (lo2, hi2)
+            if hi2 < v.hi:
+                self.bound_operands(st, v.aff, hi2)
         return True
+
+    def bound_operands(self, st, aff, hi):
+        """c + sum k_i*x_i <= hi with all k_i > 0 and all atoms x_i >= 0  =>  x_i <= (hi - c) / k_i.
+        Values of the state that are exactly one of these atoms get the bound (sound: atoms are fixed inputs)."""
+        bounds = {}
+        for base, k in aff.terms:
+            if not isinstance(base, str) or k <= 0:
+                return
+            a = self.atoms.get(base)
+            if a is None or a[1] is None or a[1] < 0:
+                return
+            bounds[base] = (hi - aff.c) // k
+
+        def f(x):
+            if x.aff is not None and len(x.aff.terms) == 1:
+                b, k = x.aff.terms[0]
+                if k >= 1 and b in bounds:
+                    nh = k * bounds[b] + x.aff.c  # value == k*atom + c exactly
+                    if x.hi > nh >= x.lo:
+                        return IntV(x.ty, x.bits, x.lo, nh, x.aff, False, x.lineage, x.pred, vid=x.vid, full=False, excl=x.excl)
+            return x
+        for fr in st.frames:
+            for l, val in list(fr.items()):
+                nv = map_ints(val, f)
+                if nv is not val:
+                    fr[l] = nv
+        # remember the bound for later reads of the same input (e.g. a second `q.len()`)
+        for b, bd in bounds.items():
+            k = Lin.atom(b).key()
+            old = st.afacts.get(k)
+            st.afacts[k] = (old[0], min(old[1], bd)) if old else (self.atoms[b][1], bd)
 
     def refine_excl(self, st, v, point):
         if point < v.lo or point > v.hi or point in v.excl:
@@ -1174,6 +1220,7 @@ class Interp:
         for k in set(a.refined) | set(b.refined):
             s.refined[k] = a.refined.get(k, frozenset()) | b.refined.get(k, frozenset())
         s.corr = a.corr | b.corr
+        s.afacts = {k: (min(v[0], b.afacts[k][0]), max(v[1], b.afacts[k][1])) for k, v in a.afacts.items() if k in b.afacts}
         return s
 
     def states_equal(self, a, b):
